@@ -134,7 +134,7 @@ DEFAULT_CROP = [column("Crop", "%s", 8), column("HarvestYear", "%d", 6), column(
 
 
 def write_project(root, pname, cfg, rotation, daily=None, yearly=None, crop=None, raw_confs=None, rot_mode="contiguous", crop_csv=False,
-                  pfout=None, management=False, no_daily_conf=False):
+                  pfout=None, management=False, no_daily_conf=False, automan_rows=None):
     """rotation: [(crop, sow date|None, harvest date)]; the first entry is the previous crop (harvest = start)"""
     pdir = os.path.join(root, "project", pname)
     os.makedirs(pdir)
@@ -142,6 +142,14 @@ def write_project(root, pname, cfg, rotation, daily=None, yearly=None, crop=None
     for f in ("soil", "poly", "endit"):
         shutil.copy(os.path.join(src, "%s_%s.txt" % (f, BASE)), os.path.join(pdir, "%s_%s.txt" % (f, pname)))
     shutil.copy(os.path.join(src, "automan.txt"), pdir)
+    if automan_rows:
+        # further rows of the automation table: the SM row of the base project with another crop code, sowing window and latest harvest date
+        rows = open(os.path.join(pdir, "automan.txt")).read().split("\n")
+        sm = next(r for r in rows if r.startswith("SM "))
+        keep = [r for r in rows if len(r) >= 3]
+        for code, sow1, sow2, har2 in automan_rows:
+            keep.append("%-3s %s %s %s" % (code, sow1, sow2, har2) + sm[18:])
+        open(os.path.join(pdir, "automan.txt"), "w").write("\n".join(keep) + "\n")
     open(os.path.join(pdir, "fert_%s.txt" % pname), "w").write("Field_ID  N   Frt date\nend\n")
     open(os.path.join(pdir, "til_%s.txt" % pname), "w").write("Field_ID  Ti Typ date\n          cm\nend\n")
     open(os.path.join(pdir, "irr_%s.txt" % pname), "w").write("Field_ID  Ir N03 date\n          mm mg/l \nend\n")
